@@ -30,6 +30,9 @@ verif_mod!(h_branching, "h_branching.rs");
 verif_mod!(h_kernels, "h_kernels.rs");
 verif_mod!(h_cumulative, "h_cumulative.rs");
 verif_mod!(h_timetable, "h_timetable.rs");
+// native replay targets only (a live `Solver`; never a Kani harness)
+#[cfg(not(kani))]
+verif_mod!(h_opt, "h_opt.rs");
 
 #[cfg(not(kani))]
 verif_mod!(dispatch, "dispatch.rs");
